@@ -83,4 +83,21 @@ PROPS = {
         min={"quick": {"traces_with_unknown_throwable_and_resolved_frame": 1000, "canonical_pairs_compared": 10000, "levels_checked": 10000}, "thorough": {}},
         assumptions=[DOMAIN, ALIGN, "canonical = every cause level has an exception, messages non-empty single-line without surrounding whitespace, files present and colon-free"],
     ),
+    "C09": dict(
+        level="exploration",
+        stages={"quick": [dict(variant="native", cases=8000), dict(variant="miri", cases=32, shards=8, timeout=2400)],
+                "thorough": [dict(variant="native", cases=160000), dict(variant="miri", cases=256, shards=16, timeout=6000), dict(variant="valgrind", cases=1600, shards=16, timeout=3000)]},
+        rule="case = cache file written from a generated mapping (0..400 classes, memberless classes, inline groups, long/non-ASCII/shared strings, odd and even record counts) or a corpus file; decoded by the independent decoder D and checked against the documented layout invariants (8 kinds, counted), against model M for content and order, and by ProguardCache::test(); distinct = distinct cache files with >= 2 classes and >= 1 by-params entry",
+        min={"quick": {"files_with_ge2_classes_and_by_params": 1000, "inv_range_tiling": 10000, "inv_by_params_order": 1000, "inv_member_order": 1000,
+                       "strings_with_multibyte_length_prefix": 100, "files_padding0_after_classes": 100, "files_padding4_after_classes": 100, "selftest_runs": 1000},
+             "thorough": {}},
+        assumptions=[DOMAIN, ALIGN, "the exact encoding of original start/end lines is only checked where the mapping printed them (the documentation does not fix the encoding of derived values)"],
+    ),
+    "C17": dict(
+        level="exploration",
+        stages=native(160000, 3200000),
+        rule="case = stack trace AST in the statement's domain (class without spaces, message absent or non-empty single-line without surrounding whitespace incl. ': ', 'Caused by: ', frame-like text; frames with dot-free method, colon-free file, lines 0..2^64-1; depth 0..4; 0..20 frames; top-level exception present/absent) printed by the library, parsed back, compared and printed again; plus 4 single frames and throwables per case; distinct = distinct printed traces of depth >= 1 with a delimiter-bearing message",
+        min={"quick": {"traces_depth_ge1_with_delimiter_message": 10000, "frames_roundtripped": 100000}, "thorough": {}},
+        assumptions=["a top level with neither exception nor frames is not a stack trace (nothing is printed for it); cause levels always carry an exception (the printer has no representation for a cause without one)"],
+    ),
 }
